@@ -41,6 +41,7 @@ Proof. exact builtin_draw_returns_measured. Qed.
 Theorem C15_chain_left : forall F s ts pos s1 s2 p,
   t_align ts = ALeft -> font_ok (mf_geom F) -> f_sp (mf_geom F) = 0 ->
   no_nl s1 -> no_nl s2 -> strip_cr s1 = s1 -> draw_ok (mf_geom F) pos (length (s1 ++ s2)) ->
+  index_ok F (s1 ++ s2) ->
   let r1 := text_draw F s ts pos s1 in
   let r2 := text_draw F s ts (snd r1) s2 in
   let r12 := text_draw F s ts pos (s1 ++ s2) in
@@ -51,7 +52,7 @@ Theorem C15_chain_left_after_lines : forall F s ts pos a lk s2 p,
   t_align ts = ALeft -> font_ok (mf_geom F) -> f_sp (mf_geom F) = 0 ->
   no_nl lk -> no_nl s2 -> strip_cr lk = lk ->
   let pos2 := shift_y pos (Z.of_nat (length (split_nl a)) * text_line_height (mf_geom F) ts) in
-  draw_ok (mf_geom F) pos2 (length (lk ++ s2)) ->
+  draw_ok (mf_geom F) pos2 (length (lk ++ s2)) -> index_ok F (lk ++ s2) ->
   let s1 := a ++ 10 :: lk in
   let r1 := text_draw F s ts pos s1 in
   let r2 := text_draw F s ts (snd r1) s2 in
